@@ -113,15 +113,21 @@ func (p *Parser) parseNode(node, parent *yaml.Node, group *Group, offsetLine, of
 		if group == nil {
 			group = &Group{} // nolint: exhaustruct
 		}
+		var nested []Group
 		for _, n := range unpackNodes(node) {
 			if ret, isEmpty := parseRule(n, offsetLine, offsetColumn, contentLines); !isEmpty {
 				group.Rules = append(group.Rules, ret)
+			} else {
+				// Not a rule, but there might be rules somewhere inside it,
+				// example: a Kubernetes List of PrometheusRule objects.
+				nested = append(nested, p.parseNode(n, node, nil, offsetLine, offsetColumn, contentLines)...)
 			}
 		}
 		// Handle empty rules within a group.
 		if len(group.Rules) > 0 || (parent != nil && nodeValue(parent) == "rules" && len(groups) == 0 && group != nil) {
 			groups = append(groups, *group)
 		}
+		groups = append(groups, nested...)
 		return groups
 	case yaml.MappingNode:
 		for _, field := range mappingNodes(node) {
